@@ -627,3 +627,8 @@ func urlWire(kind, cls, loc string) (string, bool) {
 }
 
 var _ = proto.Marshal
+
+// ParseScalar converts decoded URL text to a value of the field's kind (exported for other checks).
+func ParseScalar(fd protoreflect.FieldDescriptor, s string) (protoreflect.Value, error) {
+	return parseScalar(fd, s)
+}
